@@ -256,6 +256,10 @@ def _families():
         for how in ('arg', 'env', 'main'):
             for flag_where in ('cli-flag', 'main-flag'):
                 yield ('named-before-flags', (b, how, flag_where))
+        # a boolean override given with git -c in any of git's spellings
+        for spelling in ('yes', 'on', '1', 'True', 'no', 'off', '0', 'FALSE'):
+            for fmt_ in ('new', 'old'):
+                yield ('gcp-bool-spelling', (b, spelling, fmt_))
         # a gitconfig section named like a built-in feature is a feature like any other: the features it names (and the
         # built-in flags it sets) are enabled with it when it is named in a list
         for how in ('arg', 'env', 'main', 'env+'):
@@ -491,6 +495,17 @@ def build(family, params, defaults):
         p.expected = S[0]
         p.why = 'features named by --features / DELTA_FEATURES come before feature flags'
         p.nsources = 2
+    elif family == 'gcp-bool-spelling':
+        b, spelling, fmt_ = params
+        truth = spelling.lower() in ('yes', 'on', '1', 'true')
+        o = 'keep-plus-minus-markers'
+        p = Placement(o)
+        p.main[o] = 'false' if truth else 'true'
+        p.gcp[o] = spelling
+        p.gcp_format = fmt_
+        p.expected = 'true' if truth else 'false'
+        p.why = 'GIT_CONFIG_PARAMETERS (git -c delta.%s=%s) overrides the [delta] section; %r is one of git\'s spellings of %s' % (o, spelling, spelling, truth)
+        p.nsources = 2
     elif family == 'builtin-named-section':
         b, how, nested = params
         if nested == 'features':
@@ -610,7 +625,7 @@ def plan(ctx):
         rng = ctx.rng('c13')
         # the small families about interactions between sources (added after seeded changes slipped through a uniform
         # sample) run completely every time; the big product families are sampled
-        small = {'flag-beside-list', 'builtin-named-section', 'no-gitconfig-equals-empty', 'source-beside-unrelated-flag', 'custom-before-builtin', 'named-before-flags'}
+        small = {'flag-beside-list', 'gcp-bool-spelling', 'builtin-named-section', 'no-gitconfig-equals-empty', 'source-beside-unrelated-flag', 'custom-before-builtin', 'named-before-flags'}
         pinned = [it for it in items if fam[it[1]][0] in small]
         rest = [it for it in items if fam[it[1]][0] not in small]
         rng.shuffle(rest)
